@@ -15,18 +15,26 @@ def key_of(rj):
         return 'trace'
 
 
+def bind(ck, tag='c12'):
+    """binding of the real AES layer to the TLA+ definition (also used by C02 for the AES arrows of the composition)"""
+    exe = vlib.build_harness('rx_aes')
+    tr = os.path.join(vlib.WORK, tag + '.ndjson')
+    lines = vlib.run_harness([exe, '--seed', str(ck.seed), '--tier', ck.tier, '--out', tr], tr, timeout=600)
+    res = vlib.validate_sharded('TraceAes', 'TraceAes.cfg', lines, tag, shards=16, timeout=3000, xmx='6g')
+    ck.add_traces('TraceAes', res, 'soft/hard rounds, AesGenerator1R/4R, AesHash1R, combined step, T-tables, full-size chain links and soft/hard difference counts')
+    ck.reject('TraceAes', res, key_of)
+    if os.path.exists(tr):
+        os.remove(tr)
+    return lines
+
+
 def run():
     ck = vlib.Check('C12', 'model_checking')
     r = vlib.tlc('MCAes', 'MCAes.cfg', workers=4, timeout=600)
     ck.add_model('MCAes', r, 'all 256 byte values: literal tables = GF(2^8) definitions, T-table round = FIPS-197 round, inverses, combined step = (hash, fill) for 1..2 blocks, constants = Blake2b of the named strings')
     if not r['ok']:
         ck.violation('model:MCAes', 'AES layer model check failed', vlib.tlc_error_summary(r['out']))
-    exe = vlib.build_harness('rx_aes')
-    tr = os.path.join(vlib.WORK, 'c12.ndjson')
-    lines = vlib.run_harness([exe, '--seed', str(ck.seed), '--tier', ck.tier, '--out', tr], tr, timeout=600)
-    res = vlib.validate_sharded('TraceAes', 'TraceAes.cfg', lines, 'c12', shards=16, timeout=3000, xmx='6g')
-    ck.add_traces('TraceAes', res, 'soft/hard rounds, AesGenerator1R/4R, AesHash1R, combined step, T-tables, full-size chain links and soft/hard difference counts')
-    ck.reject('TraceAes', res, key_of)
+    lines = bind(ck)
     kinds = {}
     for l in [x for x in lines if '"e": "Crash"' not in x]:
         e = l[6:l.index('"', 6)]
@@ -40,5 +48,4 @@ def run():
                       'code on seeded/boundary (state,key) pairs and buffers of 0..8 (quick) / 0..64 (thorough) blocks recomputed '
                       'completely by the spec, plus full-size (2 MiB, 3200 B) runs checked by local chain links and soft/hard difference counts')
     ck.assumptions += ['hardware AES path = AESENC/AESDEC of this CPU', 'full-size buffers: only sampled links are recomputed in TLA+ (quick); thorough recomputes a whole 2 MiB fingerprint']
-    os.remove(tr)
     return ck.finish()
